@@ -186,14 +186,25 @@ def gen_history(rng, prof, probes):
                 # a relative offset in the set (OffsetNewest -1, OffsetOldest -2, OffsetInvalid -3 - the value failed
                 # lookups return): the whole call must be rejected
                 offs = [rng.choice([-1, -2, -3, -3])] + offs
-            ops.append('%s %s' % (kind, offs_tok(offs)))
-            if all(o >= 0 for o in offs):
+            if kind == 'delm' and rng.random() < 0.25 and all(o >= 0 for o in offs):
+                # the backoff function fails at its (bk+1)-th call: the helper stops after that pass
+                ops.append('delmb %d %s' % (rng.choice([0, 0, 1, 2]), offs_tok(offs)))
+                sh.live = None or sh.live
+                note('delmb')
+                offs = None
+            else:
+                ops.append('%s %s' % (kind, offs_tok(offs)))
+            if offs is not None and all(o >= 0 for o in offs):
                 apply_delete(sh, offs)
             note('%s:%s' % (kind, cls))
         elif kind == 'trim':
             sh.bk = {n: False for n in sh.bk}
             which = rng.choice(prof.get('trims', ['trimo', 'trimc', 'trims', 'trima']))
-            ops.extend(draw_trim(rng, sh, which))
+            if which == 'trimo' and rng.random() < 0.2 and sh.next > 0:
+                ops.append('trimob %d %d' % (rng.choice([0, 0, 1]), rng.randrange(0, sh.next + 1)))
+                which = 'trimob'
+            else:
+                ops.extend(draw_trim(rng, sh, which))
             note(which)
         elif kind == 'compact':
             sh.bk = {n: False for n in sh.bk}
